@@ -2,6 +2,8 @@ package ctlsim
 
 import (
 	"fmt"
+	"sync"
+	"time"
 
 	"github.com/openebs/jiva/types"
 )
@@ -63,6 +65,24 @@ func RunElection(w *World, idx int) {
 			leader.Alive = false
 			leader.mu.Unlock()
 			w.rec(Step{K: "leader-dies", Addr: leader.IP})
+		}
+		if r.Chance(10) {
+			// a quorum-type replica (holds no data) registers: it never counts towards the majority of data replicas
+			// and is never the one asked to start the volume
+			q := w.NewFake(int64(r.Range(1, 9)))
+			w.Fac.mu.Lock()
+			n0 := len(w.Fac.Signals)
+			w.Fac.mu.Unlock()
+			w.rec(Step{K: "register-quorum-replica", Addr: q.IP})
+			w.C.RegisterReplica(types.RegReplica{Address: q.IP, UUID: q.UUID, RevCount: q.Rev, RepType: "quorum", RepState: "closed", UpTime: time.Second})
+			w.Res.Count("quorum_replica_registrations", 1)
+			w.Fac.mu.Lock()
+			ns := append([]Signal(nil), w.Fac.Signals[n0:]...)
+			w.Fac.mu.Unlock()
+			if len(ns) > 0 {
+				w.Fail("C09", "signal-sent-on-quorum-replica-registration", fmt.Sprintf("registration of quorum-type replica %s made the controller signal %v", q.IP, ns))
+				return
+			}
 		}
 		pre := w.C.VerifState()
 		w.Fac.mu.Lock()
@@ -259,4 +279,123 @@ func perm(n, idx int, r interface{ Intn(int) int }) []int {
 		p[i], p[j] = p[j], p[i]
 	}
 	return p
+}
+
+// RunElectionRace: all replicas of an RF-5 volume have registered, the elected
+// one dies before it starts the volume, and the others send their periodic
+// re-registration at the same moment (replicas retry every 5 s until they are
+// signalled). Whichever request is served first finds the leader dead and
+// elects again; every start signal from then on must go to the live replica
+// with the highest revision count - the registration table did not change,
+// so the ground truth does not depend on the order in which the concurrent
+// requests are served.
+func RunElectionRace(w *World, idx int) {
+	r := w.R
+	n := w.RF
+	w.Cfg = map[string]interface{}{"rf": w.RF, "scenario": "election-race"}
+	revs := r.Perm(9)
+	var fs []*Fake
+	for i := 0; i < n; i++ {
+		fs = append(fs, w.NewFake(int64(revs[i]+1))) // distinct revision counts
+	}
+	for _, f := range fs {
+		w.Register(f, "closed")
+	}
+	st := w.C.VerifState()
+	if !st.StartSignalled {
+		w.Fail("C09", "no-start-signal-with-majority", fmt.Sprintf("all %d replicas registered, nobody signalled", n))
+		return
+	}
+	var leader *Fake
+	for _, f := range fs {
+		if f.IP == st.MaxRevReplica {
+			leader = f
+		}
+	}
+	if leader == nil {
+		return
+	}
+	leader.mu.Lock()
+	leader.Alive = false
+	leader.mu.Unlock()
+	w.rec(Step{K: "leader-dies", Addr: leader.IP})
+	var best *Fake
+	for _, f := range fs {
+		if f != leader && (best == nil || f.Rev > best.Rev) {
+			best = f
+		}
+	}
+	w.Fac.mu.Lock()
+	nsig := len(w.Fac.Signals)
+	w.Fac.mu.Unlock()
+	var wg sync.WaitGroup
+	gate := make(chan struct{})
+	for _, f := range fs {
+		if f == leader {
+			continue
+		}
+		w.rec(Step{K: "register", Addr: f.IP, Note: fmt.Sprintf("rev=%d concurrent re-registration", f.Rev)})
+		wg.Add(1)
+		go func(f *Fake) {
+			defer wg.Done()
+			<-gate
+			w.C.RegisterReplica(types.RegReplica{Address: f.IP, UUID: f.UUID, RevCount: f.Rev, RepType: "Backend", RepState: "closed", UpTime: time.Second})
+		}(f)
+	}
+	close(gate)
+	done := make(chan struct{})
+	go func() { wg.Wait(); close(done) }()
+	select {
+	case <-done:
+	case <-time.After(60 * time.Second):
+		w.notes = append(w.notes, "election race: registrations still pending after 60 s")
+		w.Dead = true
+		return
+	}
+	w.Res.Count("registrations", int64(n-1))
+	w.Res.Count("concurrent_reregistration_rounds", 1)
+	w.NonTrivial = true
+	w.Fac.mu.Lock()
+	sigs := append([]Signal(nil), w.Fac.Signals[nsig:]...)
+	w.Fac.mu.Unlock()
+	starts := 0
+	for _, s := range sigs {
+		if s.Action != "start" {
+			continue
+		}
+		starts++
+		w.Res.Count("start_signals", 1)
+		if s.Target != best.IP {
+			t := w.Fakes["tcp://"+s.Target+":9502"]
+			rev := int64(-1)
+			if t != nil {
+				rev = t.Rev
+			}
+			w.Fail("C09", "elected-replica-not-most-up-to-date:concurrent-registrations", fmt.Sprintf("after the elected replica %s died and %d registered replicas re-registered at the same time, start was signalled to %s (revision %d) although %s (revision %d) is registered and alive; signals: %v", leader.IP, n-1, s.Target, rev, best.IP, best.Rev, sigs))
+			return
+		}
+	}
+	if starts == 0 {
+		w.Fail("C09", "no-start-signal-with-majority", fmt.Sprintf("%d live replicas re-registered after the leader died, nobody was signalled", n-1))
+		return
+	}
+	w.Res.Count("elections_checked", 1)
+	post := w.C.VerifState()
+	// only the newly elected replica can start the volume
+	for _, f := range fs {
+		if f == best || f == leader {
+			continue
+		}
+		if err := w.C.Start(f.Addr); err == nil || len(w.C.VerifState().Replicas) > 0 {
+			w.Fail("C09", "start-accepted-from-non-elected", fmt.Sprintf("Start(%s) accepted although %s was signalled", f.Addr, post.MaxRevReplica))
+			return
+		}
+		break
+	}
+	if err := w.Start(best); err != nil {
+		w.Fail("C09", "elected-replica-cannot-start", err.Error())
+		return
+	}
+	w.Res.Count("volume_starts", 1)
+	w.CheckSettled("start")
 }
